@@ -20,4 +20,36 @@ TEXT = {
         "note": NOTE_SYNC,
         "technique": "Lean 4 proof (invariant by induction over a small-step sync machine; TP1/rebase lemmas) + correspondence check",
     },
+    "C02": {
+        "level": "Lean theorems over every interleaving (single server requests of any number of concurrent syncs, commits, aborts): no "
+                 "reachable state has a sync that failed with OutOfSync; a rejected push is never the fatal second rejection; the in-flight "
+                 "transaction of every racing sync satisfies the replica invariant; across any step the pending list of a sync changes only "
+                 "by being rebased over a pulled version, shortened by an accepted batch, or not at all (so a retry sends the rebased list "
+                 "and an operation that lost a conflict never returns); convergence as in C01. Tied to the code by stepping real "
+                 "Replica::sync futures one server request at a time under a deterministic scheduler and comparing every request, payload "
+                 "and result with the model.",
+        "design_ref": "DESIGN.md §5 C02",
+        "note": NOTE_SYNC,
+        "technique": "Lean 4 proof (small-step interleaving semantics, invariant) + stepped correspondence check",
+    },
+    "C04": {
+        "level": "Lean theorems: abort at any point restores the committed replica record; the replica invariant holds in every reachable "
+                 "state including right after any fault; a replica meeting its own accepted version cancels it exactly (self_cancel: nothing "
+                 "applied twice, nothing sent twice); after any faults a quiescent replica holds the chain replay and no sync is ever "
+                 "OutOfSync. Tied to the code by injecting each fault kind at server requests and storage calls of real syncs (in-memory and "
+                 "SQLite) and comparing with the model; the Lean judge recomputes the invariant from stored data.",
+        "design_ref": "DESIGN.md §5 C04",
+        "note": NOTE_SYNC + " SQLite rollback of an uncommitted transaction is trusted (C06).",
+        "technique": "Lean 4 proof (fault transitions in the sync machine, self-cancel lemma) + fault-injection correspondence check",
+    },
+    "C12": {
+        "level": "Lean theorems: in every reachable state the server's snapshot for version v equals the replay of the chain up to v, and so "
+                 "does every snapshot a sync is about to upload; a replica starting from a snapshot converges to the replay of the whole "
+                 "chain; only a replica with nil base and nothing pending (hence no tasks) ever installs a snapshot; the urgency/avoid "
+                 "decision table. Codec: JSON part modelled (C14), zlib trusted. Tied to the code by decoding the uploaded snapshot bytes "
+                 "independently and by late-joining replicas on a server that discarded pre-snapshot versions.",
+        "design_ref": "DESIGN.md §5 C12",
+        "note": NOTE_SYNC + " zlib is trusted.",
+        "technique": "Lean 4 proof (snapshot invariant of the sync machine, decision table) + correspondence check",
+    },
 }
